@@ -506,6 +506,7 @@ impl<'a> Runner<'a> {
         }
       }
     }
+    let held_before: BTreeSet<Tid> = carry.validated.clone();
     let analysis = self.analyse(step, &kind, &slice, &res, is_repeat, fault_free, last, carry, &before);
     // What pie's session now holds as consistent.
     for t in analysis.validated_ok.iter().chain(analysis.pass_complete.iter()).chain(analysis.bu_reused.iter()) { carry.validated.insert(*t); }
@@ -524,13 +525,24 @@ impl<'a> Runner<'a> {
     let tainted_before = carry.tainted;
     if unclaimed_here { carry.unclaimed = true; }
     if res.abort.is_some() {
-      // Writes of executions that did not complete (the writes of completed executions are what their records say).
+      // Writes of executions that did not complete (the writes of completed executions are what their records say) ...
       let mut written: Vec<ResKey> = vec![];
       let mut writer: Option<Tid> = None;
+      // ... and writes that came after a task that depends on the resource had already been handed out in this session
+      // (a read before the write of the generator: only in ill-formed programs).
+      let mut held_now: BTreeSet<Tid> = held_before.clone();
+      let mut read_before: BTreeMap<ResKey, BTreeSet<Tid>> = BTreeMap::new();
       for e in slice.iter() {
         match e {
           Ev::OpStart { t, op: OpK::Write | OpK::WriteVia, .. } => { writer = Some(*t); }
-          Ev::ResSet { res, .. } => { if let Some(w) = writer { if !self.ledger[w].as_ref().map(|e| e.completed).unwrap_or(false) { written.push(*res); } } }
+          Ev::ExecEnd { t, .. } => { held_now.insert(*t); }
+          Ev::RootEnd { t, .. } => { held_now.insert(*t); }
+          Ev::OpStart { t, op: OpK::Read, target: Target::Res(r), .. } => { read_before.entry(*r).or_default().insert(*t); }
+          Ev::ResSet { res, .. } => {
+            if let Some(w) = writer { if !self.ledger[w].as_ref().map(|e| e.completed).unwrap_or(false) { written.push(*res); } }
+            if read_before.get(res).map(|ts| ts.iter().any(|t| Some(*t) != writer)).unwrap_or(false) { written.push(*res); }
+            if held_now.iter().any(|t| Some(*t) != writer && self.ledger[*t].as_ref().map(|e| e.deps.iter().any(|d| d.target == Target::Res(*res))).unwrap_or(false)) { written.push(*res); }
+          }
           _ => {}
         }
       }
